@@ -37,6 +37,7 @@ def make_engine(fl, n, ranges):
 
 
 RANGES = [(0.0, 1.0), (-1.0, 3.0), (0.5, 0.75), (-10.0, 10.0)]
+RANGES_REVERSED = [(1.0, 0.0), (-1.0, 3.0), (0.75, 0.5), (10.0, -10.0)]      # minimum above maximum: the grid runs downwards
 
 
 def check_export(ctx, fl, e, n, v, scope, k, decimals=3, sep=" ", headers=True, inputs=True, outputs=True):
@@ -49,7 +50,8 @@ def check_export(ctx, fl, e, n, v, scope, k, decimals=3, sep=" ", headers=True, 
     else:
         ex = pool["ex"] = fl.FldExporter(separator=sep, headers=headers, input_values=inputs, output_values=outputs)
     sc = fl.FldExporter.ScopeOfValues.AllVariables if scope == "all" else fl.FldExporter.ScopeOfValues.EachVariable
-    case = {"inputs": n, "values": v, "scope": scope, "decimals": decimals, "separator": sep, "headers": headers, "input_values": inputs, "output_values": outputs}
+    case = {"inputs": n, "values": v, "scope": scope, "decimals": decimals, "separator": sep, "headers": headers, "input_values": inputs, "output_values": outputs,
+            "reversed_ranges": bool(e.input_variables[0].minimum > e.input_variables[0].maximum)}
     cube = "perfect-power" if (scope == "all" and round(v ** (1 / n)) ** n == v and n > 1) else "generic"
     try:
         with fl.settings.context(decimals=decimals):
@@ -136,6 +138,7 @@ def run(ctx: core.Ctx):
     ctx.sample({"maximum": counts[3]["hi"], "visited_first": counts[3]["visited"][:5]})
     # exports
     engines = {n: make_engine(fl, n, RANGES) for n in (1, 2, 3, 4)}
+    reversed_engines = {n: make_engine(fl, n, RANGES_REVERSED) for n in (1, 2, 3, 4)}
     powers = sorted({k ** n for n in (2, 3, 4) for k in range(2, 45) if k ** n <= 2000} | {k ** n - 1 for n in (2, 3, 4) for k in range(2, 45) if 1 < k ** n <= 2000})
     vs = sorted(set(range(1, 131)) | set(powers)) if ctx.quick else list(range(1, 2001))
     for n in (1, 2, 3, 4):
@@ -143,13 +146,13 @@ def run(ctx: core.Ctx):
             if n == 1 and v > 300 and ctx.quick:
                 continue
             k = roots[(v, n)]
-            check_export(ctx, fl, engines[n], n, v, "all", k)
+            check_export(ctx, fl, engines[n] if v % 5 else reversed_engines[n], n, v, "all", k)
             ctx.traces += 1
             ctx.case(("all", n, v), nontrivial=k > 1)
         for v in range(1, 65):
             if v ** n > 4096:
                 break
-            check_export(ctx, fl, engines[n], n, v, "each", v)
+            check_export(ctx, fl, engines[n] if v % 4 else reversed_engines[n], n, v, "each", v)
             ctx.case(("each", n, v), nontrivial=v > 1)
     # switches, separators, decimals
     for dec in range(1, 10):
@@ -203,7 +206,7 @@ def replay(v) -> int:
     if "inputs" not in c:
         print(c, v["expected"], v["observed"])
         return 1
-    e = make_engine(fl, c["inputs"], RANGES)
+    e = make_engine(fl, c["inputs"], RANGES_REVERSED if c.get("reversed_ranges") else RANGES)
     sc = fl.FldExporter.ScopeOfValues.AllVariables if c["scope"] == "all" else fl.FldExporter.ScopeOfValues.EachVariable
     txt = fl.FldExporter().to_string_from_scope(e, values=c["values"], scope=sc)
     rows = len([l for l in txt.split("\n") if l]) - 1
